@@ -101,7 +101,7 @@ pub fn compare(cx: &mut Case, prog: &[u8], wit: &[u8], origin: &str) -> CaseResu
 /// taken apart by a case / take / drop).  T is either a product of words of an exact total width
 /// 1..1400 (all residues modulo the SHA-256 block and padding boundaries of the witness hash) or
 /// a drawn type up to 1300 bits with sums and padding.
-fn gen_pinned_witness_program(cx: &mut Case) -> super::c01::Generated {
+pub fn gen_pinned_witness_program(cx: &mut Case) -> super::c01::Generated {
     cx.label("program: one witness of a pinned type");
     let mut src = cx.src.clone();
     let ty = if src.bool() {
